@@ -263,7 +263,27 @@ func c08Shapes(r *Run, m *ServerModel) {
 					origVar = r.L.str(as.Lhs[0])
 				}
 			}
-			want(apn != nil && recvStr(res, apn.Call) == target+".pathNode" && r.L.str(apn.Call.Args[0]) == newName && r.L.str(apn.Call.Args[1]) == origVar && apn.St.holds(origVar+" == nil", false),
+			okAttach := apn != nil && recvStr(res, apn.Call) == target+".pathNode" && r.L.str(apn.Call.Args[0]) == newName && r.L.str(apn.Call.Args[1]) == origVar && apn.St.holds(origVar+" == nil", false)
+			if apn == nil {
+				// the same store written in place: target.pathNode.childNodes[newName] = orig,
+				// when a subtree existed, under the target node's childMu
+				ast.Inspect(fi.Decl.Body, func(n ast.Node) bool {
+					as, ok := n.(*ast.AssignStmt)
+					if !ok || len(as.Lhs) != 1 || len(as.Rhs) != 1 || as.Tok != token.ASSIGN {
+						return true
+					}
+					ix, ok := unparen(as.Lhs[0]).(*ast.IndexExpr)
+					if !ok || res.str(ix.X) != target+".pathNode.childNodes" || res.str(ix.Index) != newName || res.str(as.Rhs[0]) != origVar {
+						return true
+					}
+					st := m.DB.Exprs[ix]
+					if st != nil && st.holds(origVar+" == nil", false) && st.Locks[lockToken("p9.pathNode.childMu", "W", target+".pathNode")] {
+						okAttach = true
+					}
+					return true
+				})
+			}
+			want(okAttach,
 				"subtree re-attached at the target", target+".pathNode.addPathNodeFor("+newName+", "+origVar+") when a subtree existed", "the detached path node (with its deletion fence and children) is not re-attached under the target directory's node with the new name", func() token.Pos {
 					if apn != nil {
 						return apn.Call.Pos()
